@@ -191,9 +191,7 @@ fn c05_t_hdr_lookup_n5() {
 }
 
 // ---- FrameDescriptionEntry::contains == "initial <= a < initial + len" for non-wrapping FDEs ----
-#[kani::proof]
-#[kani::unwind(20)]
-fn c05_q_debug_frame_fde_fields_and_contains() {
+fn v4_cie_fde() -> [u8; 39] {
     // CIE v4 (address_size/segment_size fields) + FDE, 32-bit, little endian, exact lengths
     let mut buf = [0u8; 15 + 24];
     buf[0] = 11;
@@ -209,18 +207,23 @@ fn c05_q_debug_frame_fde_fields_and_contains() {
     buf[13] = kani::any();
     buf[14] = kani::any(); // return register (ULEB in v4)
     buf[15] = 20;
-    // CIE pointer = 0
-    let mut i = 23;
-    while i < 39 {
-        buf[i] = kani::any();
-        i += 1;
-    }
+    // CIE pointer = 0; initial location and range symbolic
+    let a: [u8; 16] = kani::any();
+    buf[23] = a[0]; buf[24] = a[1]; buf[25] = a[2]; buf[26] = a[3]; buf[27] = a[4]; buf[28] = a[5]; buf[29] = a[6]; buf[30] = a[7];
+    buf[31] = a[8]; buf[32] = a[9]; buf[33] = a[10]; buf[34] = a[11]; buf[35] = a[12]; buf[36] = a[13]; buf[37] = a[14]; buf[38] = a[15];
+    buf
+}
+
+#[kani::proof]
+#[kani::unwind(10)]
+fn c05_q_debug_frame_fde_fields_and_contains() {
+    let buf = v4_cie_fde();
     let mut section = DebugFrame::from(FixLeb::<LittleEndian, 1>::new(&buf[..], LittleEndian));
     section.set_address_size(2); // must be overridden by the CIE's own address_size field
     let bases = BaseAddresses::default();
     let fde = section.fde_from_offset(&bases, DebugFrameOffset(15), DebugFrame::cie_from_offset).unwrap();
-    let init = ref_uint(&buf[23..], 8, false) as u64;
-    let len = ref_uint(&buf[31..], 8, false) as u64;
+    let init = crate::c06::ui(&buf, 23, 8);
+    let len = crate::c06::ui(&buf, 31, 8);
     assert!(fde.cie().version() == 4 && fde.cie().address_size() == 8);
     assert!(fde.cie().code_alignment_factor() == (buf[12] & 0x7f) as u64);
     assert!(fde.cie().return_address_register() == Register((buf[14] & 0x7f) as u16));
@@ -229,17 +232,27 @@ fn c05_q_debug_frame_fde_fields_and_contains() {
     if init.checked_add(len).is_some() {
         assert!(fde.contains(a) == (init <= a && a < init + len), "FDE address coverage");
     }
-    // the entries iterator reports the same two entries
+    kani::cover!(fde.contains(a));
+}
+
+#[kani::proof]
+#[kani::unwind(10)]
+fn c05_q_debug_frame_entries_iteration() {
+    let buf = v4_cie_fde();
+    let mut section = DebugFrame::from(FixLeb::<LittleEndian, 1>::new(&buf[..], LittleEndian));
+    section.set_address_size(8);
+    let bases = BaseAddresses::default();
+    // the entries iterator reports the CIE, then the FDE bound to it, then the end
     let mut it = section.entries(&bases);
     assert!(matches!(it.next(), Ok(Some(CieOrFde::Cie(c))) if c.offset() == 0));
     assert!(matches!(it.next(), Ok(Some(CieOrFde::Fde(p))) if p.offset() == 15 && p.cie_offset() == DebugFrameOffset(0)));
     assert!(matches!(it.next(), Ok(None)));
-    kani::cover!(fde.contains(a));
+    kani::cover!(true);
 }
 
 /// version-1 CIE: no address/segment size fields, return address register is a single unsigned byte
 #[kani::proof]
-#[kani::unwind(20)]
+#[kani::unwind(10)]
 fn c05_q_debug_frame_v1_cie_fields() {
     let mut buf = [0u8; 13 + 24];
     buf[0] = 9;
@@ -253,11 +266,9 @@ fn c05_q_debug_frame_v1_cie_fields() {
     buf[11] = kani::any();
     buf[12] = kani::any(); // return address register: one byte, any value 0..=255
     buf[13] = 20;
-    let mut i = 21;
-    while i < 37 {
-        buf[i] = kani::any();
-        i += 1;
-    }
+    let a: [u8; 16] = kani::any();
+    buf[21] = a[0]; buf[22] = a[1]; buf[23] = a[2]; buf[24] = a[3]; buf[25] = a[4]; buf[26] = a[5]; buf[27] = a[6]; buf[28] = a[7];
+    buf[29] = a[8]; buf[30] = a[9]; buf[31] = a[10]; buf[32] = a[11]; buf[33] = a[12]; buf[34] = a[13]; buf[35] = a[14]; buf[36] = a[15];
     let mut section = DebugFrame::from(FixLeb::<LittleEndian, 1>::new(&buf[..], LittleEndian));
     section.set_address_size(8);
     let bases = BaseAddresses::default();
@@ -266,6 +277,6 @@ fn c05_q_debug_frame_v1_cie_fields() {
     assert!(fde.cie().return_address_register() == Register(buf[12] as u16), "v1 return address register is a ubyte");
     assert!(fde.cie().code_alignment_factor() == (buf[10] & 0x7f) as u64);
     assert!(fde.cie().data_alignment_factor() == (((buf[11] & 0x7f) as i8) << 1 >> 1) as i64);
-    assert!(fde.initial_address() == ref_uint(&buf[21..], 8, false) as u64);
+    assert!(fde.initial_address() == crate::c06::ui(&buf, 21, 8));
     kani::cover!(buf[12] >= 0x80);
 }
